@@ -545,6 +545,36 @@ class HistoryLemma(Lemma):
         ]
 
 
+class CounterFrames(Lemma):
+    """writes-frame of the policy counters: every function that assigns them is under contract above
+    (or is the constructor, which sets them to 0 / 5).  A new writer elsewhere invalidates the history lemma."""
+    prop = 'C12'
+    name = 'counter-frames'
+
+    def obligations(self, c):
+        from pyvc import frames
+        eng = 'python/experiment/runtime/engine.py'
+        w_resub = frames.attribute_writers(eng, '_resubmissionAttempts')
+        w_restarts = frames.attribute_writers(eng, 'restarts')
+        others = set()
+        for f in ('python/experiment/runtime/control.py', 'python/experiment/runtime/workflow.py'):
+            others |= frames.attribute_writers(f, '_resubmissionAttempts') | frames.attribute_writers(f, 'restarts')
+        w_cap = frames.attribute_writers('python/experiment/runtime/control.py', '_max_resubmission_attempts')
+        self.detail = {"_resubmissionAttempts": sorted(w_resub), "restarts": sorted(w_restarts),
+                       "outside engine.py": sorted(others), "_max_resubmission_attempts": sorted(w_cap)}
+        return [
+            ('resubmission-counter-writers', w_resub <= {'Engine.__init__', 'Engine.restart', 'Engine._setExitReason'}),
+            ('restart-counter-writers', w_restarts <= {'Engine.__init__', 'Engine.restart', 'RepeatingEngine.restart',
+                                                       'RepeatingEngine.__init__'}),
+            ('no-writers-outside-engine', not others),
+            ('resubmission-cap-is-constant', w_cap <= {'Controller.__init__'}),
+        ]
+
+    def replay(self, model):
+        return 'no-replay', {"writers": getattr(self, 'detail', None),
+                             "reason": "frame obligation: a function outside the contracts writes a policy counter"}
+
+
 TARGETS = [EngineRestart(), RepeatingEngineRestart(), ComponentStateRestart(), SetExitReason(),
            RestartComponent(), UnstableSystemRestart(), PostMortemCheck()]
-LEMMAS = [HistoryLemma()]
+LEMMAS = [HistoryLemma(), CounterFrames()]
